@@ -142,22 +142,21 @@ impl Parent {
                 final(self).last_desc@ == old(self).last_desc@,
     { unimplemented!() }
     // value.place_subtree_after(id) / place_subtree_before(id): the item AND everything below it get consecutive keys next
-    // to `id` (XmlItem methods walking the live subtree: assumed callees, exercised by the edit-history replay grids)
+    // to `id`.  VERIFIED in units/c14_subtree.py (XmlItem::place_subtree_after / _before over the concrete item tree) on
+    // exactly this domain: the anchor is numbered and outside the subtree, ids are unique; nothing is claimed outside it
     #[verifier::external_body]
     pub fn order_place_subtree_after(&mut self, value: &ItemRef, id: usize) -> (r: Option<usize>)
         ensures final(self).children@ == old(self).children@, final(self).ident == old(self).ident, final(self).registered@ == old(self).registered@,
                 final(self).last_desc@ == old(self).last_desc@,
-                r is None ==> final(self).order@ == old(self).order@,
-                r is Some <==> (old(self).order@.contains(id) && !value.subtree@.contains(id)),
-                r is Some ==> final(self).order@ == placed_after(old(self).order@, id, value.subtree@),
+                (old(self).order@.contains(id) && !value.subtree@.contains(id) && old(self).order@.no_duplicates() && value.subtree@.no_duplicates())
+                    ==> r is Some && final(self).order@ == placed_after(old(self).order@, id, value.subtree@),
     { unimplemented!() }
     #[verifier::external_body]
     pub fn order_place_subtree_before(&mut self, value: &ItemRef, id: usize) -> (r: Option<usize>)
         ensures final(self).children@ == old(self).children@, final(self).ident == old(self).ident, final(self).registered@ == old(self).registered@,
                 final(self).last_desc@ == old(self).last_desc@,
-                r is None ==> final(self).order@ == old(self).order@,
-                r is Some <==> (old(self).order@.contains(id) && !value.subtree@.contains(id)),
-                r is Some ==> final(self).order@ == placed_before(old(self).order@, id, value.subtree@),
+                (old(self).order@.contains(id) && !value.subtree@.contains(id) && old(self).order@.no_duplicates() && value.subtree@.no_duplicates())
+                    ==> r is Some && final(self).order@ == placed_before(old(self).order@, id, value.subtree@),
     { unimplemented!() }
     #[verifier::external_body]
     pub fn order_clear(&mut self, value: &ItemRef)
@@ -333,14 +332,13 @@ pub mod prim {
                     final(self).parent_of@ == old(self).parent_of@,
                     final(self).order@ == crate::without_block(old(self).order@, value.subtree@) + value.subtree@,
         { unimplemented!() }
-        // attr.place_subtree_after(id): see HasChildren above
+        // attr.place_subtree_after(id): verified in units/c14_subtree.py on this domain (see HasChildren above)
         #[verifier::external_body]
         pub fn world_place_subtree_after(&mut self, value: &ItemRef, id: usize) -> (r: Option<usize>)
             ensures final(self).ident == old(self).ident, final(self).children@ == old(self).children@, final(self).attributes@ == old(self).attributes@,
                     final(self).parent_of@ == old(self).parent_of@,
-                    r is Some <==> (old(self).order@.contains(id) && !value.subtree@.contains(id)),
-                    r is None ==> final(self).order@ == old(self).order@,
-                    r is Some ==> final(self).order@ == crate::placed_after(old(self).order@, id, value.subtree@),
+                    (old(self).order@.contains(id) && !value.subtree@.contains(id) && old(self).order@.no_duplicates() && value.subtree@.no_duplicates())
+                        ==> r is Some && final(self).order@ == crate::placed_after(old(self).order@, id, value.subtree@),
         { unimplemented!() }
 
         //@@ element_last_child_or_self_id
@@ -452,7 +450,7 @@ def build():
                                 ('C13:succeeds_exactly_when_the_node_is_acceptable', 'r is Ok <==> old(self).accepts(value)'),
                                 ('C13:the_child_becomes_the_last_child', 'r is Ok ==> final(self).children@ == without_id(old(self).children@, value.ident).push(value.ident)'),
                                 ('C12:the_listed_handle_is_the_one_the_id_resolves_to', 'r is Ok ==> final(self).registered@.dom().contains(value.ident) && final(self).registered@[value.ident] == value.alloc@'),
-                                ('C14:whole_subtree_is_numbered_after_the_last_descendant', 'r is Ok && old(self).order@.contains(old(self).last_desc@) && !value.subtree@.contains(old(self).last_desc@) ==> final(self).order@ == placed_after(old(self).order@, old(self).last_desc@, value.subtree@)')])
+                                ('C14:whole_subtree_is_numbered_after_the_last_descendant', 'r is Ok && old(self).order@.contains(old(self).last_desc@) && !value.subtree@.contains(old(self).last_desc@) && old(self).order@.no_duplicates() && value.subtree@.no_duplicates() ==> final(self).order@ == placed_after(old(self).order@, old(self).last_desc@, value.subtree@)')])
     fns['delete'] = Fn(FI, TR, 'delete', props=P, sig_rules=SR, rules=[R_CLEAR], label='HasChildren::delete (trait default)',
                        ensures=[('C13:unknown_child_changes_nothing', f'r is None ==> {UNCHANGED}'),
                                 ('C13+C14:removed_child_loses_its_key', 'r is Some ==> final(self).children@ == without_id(old(self).children@, id) && final(self).order@ == without_id(old(self).order@, id)')])
@@ -463,7 +461,7 @@ def build():
                                        ('C13:succeeds_exactly_when_reference_and_node_are_acceptable', 'r is Ok <==> (old(self).children@.contains(id) && value.ident != id && old(self).accepts(value))'),
                                        ('C13:the_child_lands_directly_before_the_reference', 'r is Ok ==> final(self).children@ == Parent::inserted_before(old(self).children@, value.ident, id)'),
                                        ('C12:the_listed_handle_is_the_one_the_id_resolves_to', 'r is Ok ==> final(self).registered@.dom().contains(value.ident) && final(self).registered@[value.ident] == value.alloc@'),
-                                       ('C14:whole_subtree_is_numbered_before_the_reference', 'r is Ok && old(self).order@.contains(id) && !value.subtree@.contains(id) ==> final(self).order@ == placed_before(old(self).order@, id, value.subtree@)')])
+                                       ('C14:whole_subtree_is_numbered_before_the_reference', 'r is Ok && old(self).order@.contains(id) && !value.subtree@.contains(id) && old(self).order@.no_duplicates() && value.subtree@.no_duplicates() ==> final(self).order@ == placed_before(old(self).order@, id, value.subtree@)')])
     fns['insert_after'] = Fn(FI, TR, 'insert_after', props=P, sig_rules=SR, label='HasChildren::insert_after (trait default)',
                              rules=[Rule('R28', r'child\.id\(\)', 'child.id()', 'unchanged')],
                              ensures=[('C13+C14:refused_call_changes_nothing', f'r is Err ==> {UNCHANGED}'),
@@ -539,7 +537,7 @@ def build():
         requires=[('attributes_are_well_formed', 'forall|i: int| 0 <= i < old(self).attributes@.len() ==> (#[trigger] old(self).attributes@[i]).wf()'),
                   ('the_element_is_numbered', 'old(self).order@.contains(old(self).ident)')],
         ensures=[('C14:the_new_attribute_is_numbered_after_the_last_attribute_before_the_children',
-                  'exists|a: usize| attribute_anchor(*old(self), a) && (old(self).order@.contains(a) && !attr.subtree@.contains(a) ==> final(self).order@ == crate::placed_after(old(self).order@, a, attr.subtree@))'),
+                  'exists|a: usize| attribute_anchor(*old(self), a) && (old(self).order@.contains(a) && !attr.subtree@.contains(a) && old(self).order@.no_duplicates() && attr.subtree@.no_duplicates() ==> final(self).order@ == crate::placed_after(old(self).order@, a, attr.subtree@))'),
                  ('listed', 'final(self).attributes@ == old(self).attributes@.push(attr)')],
         inject=[(r'self\.world_place_subtree_after\(&attr, id\);', 'proof { assert(attribute_anchor(*old(self), id)); }', 'before optional')])
     fns['element_delete_by_id'] = Fn(
